@@ -105,12 +105,13 @@ def top(a, b={d}):
     r = r * 2
   return (t, r, K)
 def mk(c):
+  u = c * 7 + 1
   def inner(a, *, w=(c, {tag!r})):
     if a == c:
       z = h(a)
     else:
-      z = h(c) + 1
-    return ({tag!r}, z, w, K)
+      z = h(c) + u
+    return ({tag!r}, z, w, K, u)
   return inner
 lam = lambda a: ({tag!r}, h(a) if a != K else a, K)
 class C(object):
@@ -355,6 +356,18 @@ def gen_request(rng, fams):
 
 
 def run_world(item):
+  try:
+    return _run_world(item)
+  except Exception:
+    tb = traceback.format_exc().strip().splitlines()
+    widx, seed, T, tier = item[:4]
+    return dict(widx=widx, seed=seed, threads=T, evaluated=0, nontrivial=[], fresh_checked=0, transforms=0,
+                collected_families=0,
+                failures=[dict(kind='world-crashed', sig='harness-or-malt', what=tb[-1], traceback=tb[-8:],
+                               world_seed=seed, threads=T, tier=tier)])
+
+
+def _run_world(item):
   widx, seed, T, tier, avoid, table = item
   rng = random.Random(seed)
   install()
@@ -406,9 +419,15 @@ def run_world(item):
     """(4): a direct fresh conversion of sampled (function, options) pairs against the cache under test."""
     for _ in range(2):
       vname, optkey, idx = rng.choice(VARIANTS), rng.choice(USER_OPTS), rng.randrange(3)
-      with fresh_caches():
-        ref = perform(fam, vname, optkey, 'to_graph', idx)
-      got = perform(fam, vname, optkey, 'to_graph', idx)
+      try:
+        with fresh_caches():
+          ref = perform(fam, vname, optkey, 'to_graph', idx)
+        got = perform(fam, vname, optkey, 'to_graph', idx)
+      except Exception:
+        tb = traceback.format_exc().strip().splitlines()
+        fail('request-raised', '%s.%s.to_graph' % (vname, optname(optkey)), tb[-1], traceback=tb[-6:],
+             family=fam.tag, program=fam.src)
+        continue
       res['fresh_checked'] += 1
       res['evaluated'] += 1
       if ref[:3] != got[:3]:
